@@ -26,6 +26,14 @@
   sizes of the leaves: there is no `n × n` term.  For non-square Kronecker factors the bound is
   `∏ max(rᵢ, cᵢ) · b` (that is what `vol` is on a Kronecker product).
 
+  **Round 2.**  `C19_matmat_peak(_vol)`: the PEAK (entries alive at the same time, `Op.peakMM`) of `A @ X`
+  is at most `lvl A · (vol A · b) + leafStorage A`, `lvl` a function of the nesting only.
+  `C19_rule_cost`: for every rule family (inv, slogdet, diag, trace, apply_unary, exp, pow, cholesky, plu)
+  what `f(A)` allocates is at most 7 dense copies of each FACTOR plus 3 linear-size vectors per member
+  of every node, by induction over the tree.  `C19_skeleton_shapes` / `C19_skeleton_derived`: the
+  hand-written per-rule structure (`Op.kindRule`, `Op.baseRule`) equals, field by field, what the
+  translator extracts from the AST of the live rules, and `Op.act` is derived from it.
+
   **Rule level** (`C19_rules`, `C19_rules_ne`, `C19_skeleton_matches_rules`).
   `Op.dens f A` (Model/RuleSkeleton.lean) lists the sub-operators that `f(A)` hands to a generic
   rule.  When `f` has a structural rule for the kind of `A` all of them are PROPER sub-terms of
@@ -33,7 +41,9 @@
   agrees with the generated classification on every (function, structured kind).
 -/
 import ColaVerif.Lemmas.Cost
+import ColaVerif.Lemmas.CostPeak
 import ColaVerif.Lemmas.CostRules
+import ColaVerif.Lemmas.RuleCost
 import ColaVerif.Lemmas.SkeletonTie
 import ColaVerif.Properties.C19.DispatchA
 import ColaVerif.Properties.C19.DispatchB
@@ -165,6 +175,87 @@ theorem C19_rules_clause_needed :
 theorem C19_skeleton_matches_rules : ColaVerif.SkeletonTie.skeletonAgrees = true := by
   decide +kernel
 
+/-! ## cost level, round 2: PEAK memory of `A @ X` -/
+
+open Op in
+/-- **C19 (peak of A @ X, any shapes)**: the entries held AT THE SAME TIME by the arrays `A._matmat(X)`
+    allocates (`Op.peakMM`, Model/Cost.lean: the live sets read off the source with CPython's reference
+    counting) are at most `lvl A · (vol A · b) + leafStorage A`.  `lvl A` depends on the nesting of the
+    tree only (2 at a dense leaf, +1 per Product, +2 per Sum / Kronecker, +4 per KronSum, +4 per BlockDiag
+    level), never on a size: peak additional memory is a fixed multiple of the operand size plus the
+    dense sizes of the factors. -/
+theorem C19_matmat_peak_vol {R : Type} (A : Op R) (hs : A.inScope = true) (hwf : A.wf = true) (b : Nat) :
+    A.peakMM b ≤ A.lvl * (A.vol * b) + A.leafStorage :=
+  Op.peakOK A hs hwf b
+
+open Op in
+/-- **C19 (peak of A @ X, square leaves)**: `n = rows A`, peak ≤ `lvl A · n · b + leafStorage A` -/
+theorem C19_matmat_peak {R : Type} (A : Op R) (hs : A.inScope = true) (hwf : A.wf = true)
+    (hq : A.squareLeaves = true) (b : Nat) :
+    A.peakMM b ≤ A.lvl * (A.rows * b) + A.leafStorage := by
+  have := C19_matmat_peak_vol A hs hwf b
+  rw [(Op.square_vol A hs hwf hq).2] at this
+  exact this
+
+open Op in
+/-- the hypotheses are satisfiable and the bound is nearly sharp: for the Kronecker product of two dense
+    2 × 2 factors and b = 3 the live set peaks at 52 entries (old `ev` 12 + reshaped copy 12 + inside the
+    factor: its cast 4, the cast operand 12 and the product 12); the bound is `4 · 12 + 8 = 56`. -/
+example : (kron [dense .f64 2 2 (fun _ _ => (1 : Int)), dense .f64 2 2 (fun _ _ => 1)]).peakMM 3 = 52 ∧
+    (kron [dense .f64 2 2 (fun _ _ => (1 : Int)), dense .f64 2 2 (fun _ _ => 1)]).lvl = 4 := by
+  constructor <;> simp [Op.peakMM, Op.kronPeakLoop, Op.lvl, Op.maxL, Op.rows, Op.cols]
+
+/-! ## rule level, round 2: what `f(A)` allocates -/
+
+open Op in
+/-- **C19 (rule cost)**: for every function `f` of the rule families (inv / solve, slogdet / logdet, diag,
+    trace, apply_unary / log, exp, pow / sqrt / isqrt, cholesky, plu) and every operator tree `A` — all
+    arities, all sizes, any nesting of Kronecker, KronSum, BlockDiag, Product, Sum, Diagonal, Identity,
+    ScalarMul over arbitrary factors — on which the rules of `f` reach down to the factors
+    (`deepRule f A`: every composite node met has a structural rule), the entries allocated while `f(A)`
+    is built are at most `CF · factorDense A + OW · linSize A`:
+    `CF = 7` dense copies of each FACTOR (Σ rᵢ·cᵢ over the factors — the generic rule runs on factors
+    only) plus `OW = 3` vectors of the LINEAR size per member of every node.  No product of the row and
+    column count of a composite node occurs. -/
+theorem C19_rule_cost {R : Type} (f : Fn) (A : Op R) (h : deepRule f A = true) :
+    ruleCost f A ≤ CF * factorDense A + OW * linSize A :=
+  Op.ruleCost_le A f h
+
+open Op in
+/-- `deepRule` is needed: `inv(KronSum(D₄, D₄))` has no rule, the generic rule takes the 16 × 16 composite:
+    `5 · 256` entries against a bound of `7 · 32 + 3 · 92` -/
+theorem C19_rule_cost_clause_needed :
+    let A : Op Int := kronsum [dense .f64 4 4 (fun _ _ => 1), dense .f64 4 4 (fun _ _ => 1)]
+    deepRule Fn.inv A = false ∧ ruleCost Fn.inv A = 1280 ∧ CF * factorDense A + OW * linSize A = 500 := by
+  simp [Op.deepRule, Op.ruleCost, Op.act, Op.genCost, Op.cf, Op.rows, Op.cols, Op.factorDense, Op.linSize, Op.vol,
+    Op.CF, Op.OW]
+
+open Op in
+/-- the hypothesis is satisfiable for every rule family, on nested trees -/
+example :
+    let D : Op Int := dense .f64 3 3 (fun _ _ => 1)
+    let K : Op Int := kron [bdiag [D, diag .f64 2 (fun _ => 1)] [2, 3], D, scalar .f64 2 4]
+    deepRule Fn.inv K = true ∧ deepRule Fn.slogdet (prod [K, K]) = true ∧ deepRule Fn.diag (sum [K, kronsum [D, D]]) = true ∧
+      deepRule Fn.trace (kronsum [D, D]) = true ∧ deepRule Fn.exp (kronsum [D, bdiag [D] [2]]) = true ∧
+      deepRule Fn.pow (kron [D, bdiag [D, D] [1, 2]]) = true ∧ deepRule Fn.unary (bdiag [D, diag .f64 2 (fun _ => 1)] [1, 1]) = true ∧
+      deepRule Fn.chol K = true ∧ deepRule Fn.plu K = true := by
+  simp [Op.deepRule, Op.act, Op.allSquare, Op.prodNeedsSquare, Op.rows, Op.cols, Op.dotSum]
+
+/-! ## the skeleton is tied field by field -/
+
+/-- **field by field**: for every dispatched function of the family and every structured kind, the rules
+    of the live table written for the kind have exactly the structure of the hand-written `Op.kindRule`
+    (what they touch of the operator, which dispatched functions they call, with which argument sources
+    and classes), and so do the `LinearOperator` rules of `Op.baseRule`. -/
+theorem C19_skeleton_shapes : ColaVerif.SkeletonTie.shapesAgree = true := by
+  decide +kernel
+
+/-- `Op.act` — the table behind `dens`, `hasRule`, `ruleCost`, `deepRule` — is DERIVED from
+    `kindRule` / `baseRule` (`Op.actOf`), and wherever it is not `self` every function a rule hands the
+    whole operator to is structural on that kind. -/
+theorem C19_skeleton_derived : ColaVerif.SkeletonTie.skeletonDerived = true := by
+  decide +kernel
+
 end ColaVerif.Properties.C19
 
 open ColaVerif.Structural in
@@ -203,3 +294,9 @@ open ColaVerif.Structural in
 #print axioms ColaVerif.Properties.C19.C19_rules_ne
 #print axioms ColaVerif.Properties.C19.C19_rules_clause_needed
 #print axioms ColaVerif.Properties.C19.C19_skeleton_matches_rules
+#print axioms ColaVerif.Properties.C19.C19_matmat_peak_vol
+#print axioms ColaVerif.Properties.C19.C19_matmat_peak
+#print axioms ColaVerif.Properties.C19.C19_rule_cost
+#print axioms ColaVerif.Properties.C19.C19_rule_cost_clause_needed
+#print axioms ColaVerif.Properties.C19.C19_skeleton_shapes
+#print axioms ColaVerif.Properties.C19.C19_skeleton_derived
